@@ -36,7 +36,10 @@ def run_shard(ctx, spec):
             ex.walk(rnd.choice([2, 2, 3, 3, 4]), maxlen=90)
     else:
         for k in range(spec['n']):
-            ex.complete(rnd.choice([2, 3, 3, 4]), max_reg=rnd.choice([2, 3, 4]), max_jo=3)
+            if k % 3 == 2:
+                ex.jumpoff_scenario(rnd.choice([2, 3, 3, 4]), max_jo=3)
+            else:
+                ex.complete(rnd.choice([2, 3, 3, 4]), max_reg=rnd.choice([2, 3, 4]), max_jo=3)
     ctx.info['states'] = ex.states
     ctx.info['transitions'] = ex.transitions
     ctx.count('eval.states-expanded', ex.states)
